@@ -1,5 +1,5 @@
 #!/usr/bin/env python3
-"""Rewrite the table of DESIGN.md section 11.4 from seeded/*/meta.json (between the SEEDED-TABLE markers)."""
+"""Rewrite the table of DESIGN.md section 11.5 from seeded/*/meta.json (between the SEEDED-TABLE markers)."""
 import os, json, glob, re
 V = os.path.dirname(os.path.dirname(os.path.abspath(__file__)))
 rows = []
